@@ -28,7 +28,43 @@ def run_config(a, kind, method, dtype, extra_opts=None, build_opts=None, pat=Non
         bo = dict(build_opts or {})
         if pat:
             bo['patterned'] = AG.pattern_hooks(pat)
+        hist = bo.pop('history', None)
+        if hist == 'rule_added_later' and len(a['rules']) >= 2:
+            bo['defer_rules'] = 1
         g, info = AG.build_fgg(a, kind, dtype, **bo)
+        if hist:
+            # a HISTORY on the same object: a query on an earlier state of the grammar (one rule missing / other weights),
+            # then the change, then the judged query -- anything remembered from the first query must not leak into the second
+            olds = {}
+            if hist == 'weights_changed':
+                for t in AG.terms_of(a):
+                    w = g.factors[t].weights
+                    if any(st_ == 0 and n_ > 1 for st_, n_ in zip(w.physical.stride(), w.physical.shape)):
+                        continue                    # a stride-0 view cannot be written in place: left alone
+                    olds[t] = w.physical.clone()
+                    if w.physical.dtype == torch.bool:
+                        w.physical.logical_not_()
+                    else:
+                        w.physical.copy_(torch.ones_like(w.physical) if kind == 'real' else torch.zeros_like(w.physical))
+            try:
+                with warnings.catch_warnings():
+                    warnings.simplefilter('ignore')
+                    with torch.no_grad():
+                        fggs.sum_products(g, method=method, semiring=AG.semiring_for(kind, dtype), **(extra_opts or {}))
+            except Exception:
+                pass
+            if hist == 'rule_added_later' and 'add_deferred' in info:
+                info['add_deferred']()
+            if hist == 'weights_changed':
+                for k, t in enumerate(AG.terms_of(a)):
+                    if t not in olds:
+                        continue
+                    w = g.factors[t].weights
+                    if k % 2 == 0:
+                        w.physical.copy_(olds[t])                                  # in place, behind the factor's back
+                    else:
+                        from fggs.indices import PatternedTensor
+                        g.factors[t].weights = PatternedTensor(olds[t], w.paxes, w.vaxes, w.default)   # through the setter
         with warnings.catch_warnings(record=True) as wl:
             warnings.simplefilter('always')
             with torch.no_grad():
@@ -65,6 +101,9 @@ def make_case(a, tier, idx=0):
                 m = METHODS[idx % 3]
                 runs.append(run_config(a, kind, m, dt, build_opts={'fresh_labels': True}))
                 runs.append(run_config(a, kind, m, dt, build_opts={'fresh_labels': True, 'rule_order': list(reversed(range(len(a['rules']))))}))
+            if idx % 4 == 3:
+                runs.append(run_config(a, kind, METHODS[idx % 3], dt, build_opts={'history': 'rule_added_later'}))
+                runs.append(run_config(a, kind, METHODS[(idx + 1) % 3], dt, build_opts={'history': 'weights_changed'}, pat=a.get('pat')))
             if idx % 3 == 2:
                 # the start symbol declared last (the grammar object is created around another nonterminal)
                 runs.append(run_config(a, kind, METHODS[idx % 2], dt, build_opts={'start_last': True}))
